@@ -3,7 +3,7 @@ import warnings
 from hypothesis import strategies as st
 
 from amaranth.hdl import (Module, Signal, Const, Cat, Mux, ClockDomain, Instance, IOPort, IOBufferInstance, Fragment,
-                          ResetInserter, EnableInserter)
+                          ResetInserter, EnableInserter, ClockSignal, ResetSignal)
 from amaranth.hdl import SyntaxError as AmaranthSyntaxError
 from amaranth.hdl._ir import build_netlist, DriverConflict
 from amaranth.hdl._nir import CombinationalCycle
@@ -69,8 +69,10 @@ def driver_cases(draw):
                       "dup-other-owner"])
     # control inserters around submodules: they act on the bits the module drives and must not claim others
     wraps = [PICK(draw, [None, None, "R", "E"]) for _ in range(nmod)]
+    # the clock domains are defined by the design, or left to be created on conversion - with their clock / reset
+    # signals named among the ports by the caller (who wants them in a known place of the port list)
     return {"widths": widths, "nmod": nmod, "placements": placements, "mutation": mut,
-            "r": [draw(INT(0, 10 ** 6)) for _ in range(3)], "wraps": wraps}
+            "r": [draw(INT(0, 10 ** 6)) for _ in range(3)], "wraps": wraps, "implicit_domains": draw(INT(0, 3)) == 0}
 
 
 def mutate(case):
@@ -130,7 +132,17 @@ def build_drivers(case, pl):
     sigs = [Signal(w, name=f"s{i}") for i, w in enumerate(widths)]
     ins = [Signal(w, name=f"in{i}") for i, w in enumerate(widths)]
     mods = [Module() for _ in range(nmod)]
-    mods[0].domains += [ClockDomain("sync"), ClockDomain("other")]
+    extra_ports = []
+    if case.get("implicit_domains"):
+        used = sorted({p["dom"] for p in pl if p["kind"] == "logic" and p["dom"] != "comb"})
+        for k, d in enumerate(used):
+            extra_ports.append(ClockSignal(d))
+            if (case["r"][0] + k) % 2:
+                extra_ports.append(ResetSignal(d))
+        for d in {"sync", "other"} - set(used):
+            mods[0].domains += ClockDomain(d)        # (named by the control inserters only)
+    else:
+        mods[0].domains += [ClockDomain("sync"), ClockDomain("other")]
     wraps = case.get("wraps") or [None] * nmod
     ctl = Signal(name="ctl")
     for i in range(1, nmod):
@@ -156,7 +168,7 @@ def build_drivers(case, pl):
             m.submodules += Instance("blk", o_q=tgt, i_d=ins[p["sig"]])
         else:
             m.submodules += IOBufferInstance(IOPort(p["hi"] - p["lo"], name=f"pad{i}"), i=tgt)
-    return mods[0], sigs + ins + [ctl]
+    return mods[0], extra_ports + sigs + ins + [ctl]
 
 
 def driver_body(ctx, case):
@@ -190,6 +202,8 @@ def driver_body(ctx, case):
     if any(p["kind"] == "iob" for p in case["placements"]): keys.append("drv:iobuffer-input")
     if any(p["kind"] == "logic" and p.get("form") in (1, 2) for p in case["placements"]): keys.append("drv:slice-of-sign-reinterpretation")
     if any(w for w in (case.get("wraps") or [])[1:]): keys.append("drv:control-inserter-around-submodule")
+    if case.get("implicit_domains") and any(p["kind"] == "logic" and p["dom"] != "comb" for p in case["placements"]):
+        keys.append("drv:implicit-domain-with-its-clock-among-the-ports")
     ctx.note(case, mut != "none", *keys, evals=2)
 
 
@@ -565,5 +579,6 @@ def parts(tier):
 
 REQUIRED = ["drv:legal", "drv:conflicting", "drv:near-miss-still-legal", "drv:instance-output", "drv:iobuffer-input",
             "drv:mutation-grow", "drv:mutation-move-module", "drv:mutation-move-domain", "drv:mutation-overlap-inst",
-            "drv:mutation-second-inst", "drv:slice-of-sign-reinterpretation", "drv:control-inserter-around-submodule", "cyc:acyclic", "cyc:acyclic-with-intra-signal-feeding", "cyc:cyclic",
+            "drv:mutation-second-inst", "drv:slice-of-sign-reinterpretation", "drv:control-inserter-around-submodule",
+            "drv:implicit-domain-with-its-clock-among-the-ports", "cyc:acyclic", "cyc:acyclic-with-intra-signal-feeding", "cyc:cyclic",
             "cyc:cycle-through>=2-signals", "cyc:with-conditions", "cyc:two-modules"]
